@@ -26,9 +26,9 @@ Definition chunk (b : block) (doff dlen : Z) : list N :=
 Section Walk.
 Context {St : Type}.
 Variable upd : St -> list N -> St.     (* what the loop body does with block_data+data_offset, data_len *)
-(* [fixd] = false: the loop as it is in 4.5.2, `if (block->base + block->size >= offset + length) break;`
-   [fixd] = true : the proposed repair, `if (past_first_block && block->base + ... ) break;`
-   The check determines per function which of the two the code under test implements. *)
+(* [fixd] = true : the loop of the current code (fix fc7cae9), `if (past_first_block && block->base + ... ) break;`
+   [fixd] = false: the loop as it was in 4.5.2, `if (block->base + block->size >= offset + length) break;`,
+                   kept only for the refutation witness of the pinned variant. *)
 Variable fixd : bool.
 
 (* foreach_memory_block(iterator, block) { ... } followed by the !past_first_block test.
@@ -272,7 +272,10 @@ Definition math_min (i j : Z) : option Z :=                          (* uint64_t
   if arg_def i && arg_def j then ret_int (wrap64 (if uz i <? uz j then uz i else uz j)) else None.
 Definition math_max (i j : Z) : option Z :=
   if arg_def i && arg_def j then ret_int (wrap64 (if uz j <? uz i then uz i else uz j)) else None.
-Definition math_abs (i : Z) : option Z :=                            (* llabs: INT64_MIN stays INT64_MIN on x86-64/glibc *)
+Definition math_abs (i : Z) : option Z :=                            (* INT64_MIN has no absolute value: undefined (fix 47f96c8) *)
+  if arg_def i then (if i =? INT64_MIN then None else ret_int (Z.abs i)) else None.
+(* the function as it was in 4.5.2: llabs(INT64_MIN) (undefined behaviour in C) gives INT64_MIN on x86-64/glibc *)
+Definition math_abs_pinned (i : Z) : option Z :=
   if arg_def i then ret_int (if i =? INT64_MIN then INT64_MIN else Z.abs i) else None.
 Definition math_to_number (b : bool) : Z := if b then 1 else 0.
 (* in_range(test, lower, upper) on doubles; arguments here are numerators over one common power of two,
